@@ -301,7 +301,9 @@ R_PNFTH = [f"{_RP}.createDenom_refines", f"{_RP}.updateDenom_refines", f"{_RP}.d
            f"{_RP}.goStep_abs", f"{_RP}.goRun_abs"]
 _RPP = "Panacea.Refine.PnftProps"
 R_PNFTP06 = [f"{_RP}.translated_denom_ops_require_current_owner", f"{_RP}.translated_token_ops_require_current_owner"]
-R_PNFTP12 = [f"{_RP}.translated_history_invariants"]
+R_PNFTP12 = [f"{_RP}.translated_history_invariants", f"{_RP}.getPNFTsByDenomId_refines",
+             f"{_RP}.getPNFTsByDenomIdAndOwner_refines", f"{_RP}.getPNFTsByDenomIdAndOwner_bad", f"{_RP}.getAllDenoms_run"]
+_RPQ = "Panacea.Refine.PnftQuery"
 REFINE = {
     "C18": ([_RC], R_COMPKEY),
     "C01": ([_RA], R_COMPKEY + R_AOL),
@@ -311,7 +313,7 @@ REFINE = {
     "C16": ([_RT, _RD, _RP], R_VB + R_DIDV + R_PNFTV),
     "C17": ([_RT, _RC, _RD, _RP], R_VB + R_SIGNERS + R_COMPKEY + R_DIDV[-3:] + R_PNFTV),
     "C06": ([_RP, _RPP], R_PNFTV + R_PNFTH + R_PNFTP06),
-    "C12": ([_RP, _RPP], R_PNFTH + R_PNFTP12),
+    "C12": ([_RP, _RPP, _RPQ], R_PNFTH + R_PNFTP12),
     "C11": ([_RD, _RK], R_DIDV[-4:] + R_DIDK[3:5]),
     "C03": ([_RD, _RK], R_DIDV[3:5] + R_DIDV[6:7] + R_DIDK),
     "C07": ([_RB], R_BURN),
